@@ -10,8 +10,9 @@ func init() {
 			{Name: "TestChaos", Rapid: true, Quick: 10000, Thorough: 60000, QuickShards: 2, ThoroughShards: 8},
 			{Name: "TestNearValid", Rapid: true, Quick: 4000, Thorough: 40000, QuickShards: 3, ThoroughShards: 8},
 			{Name: "TestDangling", Rapid: true, Quick: 3000, Thorough: 30000, QuickShards: 3, ThoroughShards: 8},
+			{Name: "TestRecursiveTypes", Rapid: true, Quick: 2000, Thorough: 40000, QuickShards: 1, ThoroughShards: 4},
 		},
-		Rule:      "a case = one DSL program (a tree of calls of the exported goa.design/goa/v3/dsl functions, interpreted by reflection against the real functions, then eval.RunDSL). Three generators: 'chaos' (1-6 top-level calls, every function of the DSL in any context with arguments drawn per Go parameter type: hostile strings, ints, typed constants, nil, nested type-returning calls, references to earlier results, nested func bodies to depth 5), 'near-valid' (a generated valid design with 1-3 edits: delete / duplicate / move a call to another body / swap arguments / replace a string / empty a body / insert an arbitrary call / arbitrary argument / drop or add a variadic argument), 'dangling' (a generated valid HTTP or gRPC design in which exactly one mapping - query, header, cookie, path, body, response header/cookie/body/tag, gRPC metadata/header/trailer, alone on its endpoint or next to valid ones -, requirement, view or error response names something that does not exist). Programs a Go compiler would refuse (arity, static types, undefined variables) are counted 'not-expressible' and are trivial. Non-trivial = chaos program with >=2 top-level calls of which >=1 is reported misplaced, any expressible near-valid mutant with >=1 applied edit, any dangling mutant. Distinct = SHA-256 of the program.",
+		Rule:      "a case = one DSL program (a tree of calls of the exported goa.design/goa/v3/dsl functions, interpreted by reflection against the real functions, then eval.RunDSL). Four generators: 'chaos' (1-6 top-level calls, every function of the DSL in any context with arguments drawn per Go parameter type: hostile strings, ints, typed constants, nil, nested type-returning calls, references to earlier results, nested func bodies to depth 5), 'near-valid' (a generated valid design with 1-3 edits: delete / duplicate / move a call to another body / swap arguments / replace a string / empty a body / insert an arbitrary call / arbitrary argument / drop or add a variadic argument), 'dangling' (a generated valid HTTP or gRPC design in which exactly one mapping - query, header, cookie, path, body, response header/cookie/body/tag, gRPC metadata/header/trailer, alone on its endpoint or next to valid ones -, requirement, view or error response names something that does not exist), 'recursive' (a graph of 1-3 user types closed into a cycle, every edge one of: attribute, array element, map element, map key, array of maps, map with a user-type key and array element, map with user-type key and element, union alternative; plain or result types; used as payload, result, both or error type of an HTTP endpoint, a gRPC endpoint or both; all 384 single-kind cycles of length 1-2 first, then random graphs). Programs a Go compiler would refuse (arity, static types, undefined variables) are counted 'not-expressible' and are trivial. Non-trivial = chaos program with >=2 top-level calls of which >=1 is reported misplaced, any expressible near-valid mutant with >=1 applied edit, any dangling mutant, any recursive type graph. Distinct = SHA-256 of the program.",
 		LevelText: "Generated-input search over DSL programs evaluated in-process with the real DSL and evaluation engine: every evaluation must end, within 20 s, either accepted or with a non-empty list of errors whose messages are non-empty; a recovered panic or a timeout is a violation; a dangling-reference mutant of an accepted design must be rejected. Failing programs are shrunk by rapid and saved as program.json + design.go.",
 		LevelNote: "Trusts the Go runtime, reflect and rapid; the interpreter calls the DSL functions exactly as compiled Go would (nil variadic slice when no variadic argument is given). Global evaluation state is reset before every case the way expr/init.go sets it up. 'errors name the offending expression' is checked structurally for validation-phase errors (every entry of eval.ValidationErrors carries a non-nil error and an expression with a non-empty EvalName) and as 'non-empty message' for execution-phase errors, whose text format is free.",
 		Technique: "property-based testing (rapid): grammar-based and mutation-based generation of DSL programs against a crash/termination/non-empty-error oracle, plus a metamorphic oracle (valid design + one dangling name => rejected)",
